@@ -2,7 +2,11 @@
 Line-protocol handlers for C10 (driver `gm_c10`).
 
   jacoco <ev> <ev> …      -> ok K<hexpath>=<cov> … (entries sorted as text) | err Parse |
-                             err InvalidRecord | diverge
+                             err InvalidRecord | panic | diverge
+                             (`Jacoco.parse` = `parseCap allocMax`: `panic` is the outcome `alloc`,
+                             the "capacity overflow" panic of `vec![true; cb]` / `extend`)
+  jacococap <cap> <ev> …  -> the same with `parseCap cap`; `alloc` is printed as `alloc`
+                             (panic or allocation abort, depending on the machine)
       <ev> ::= s,<hexname>{,<hexkey>=<hexvalue>}   Start
              | e,<hexname>{,<hexkey>=<hexvalue>}   Empty
              | c,<hexname>                         End
@@ -43,12 +47,23 @@ def showJacoco : Outcome (List (Name × Cov)) → String
     "ok " ++ joinWith " " (items.mergeSort strLe)
   | .err .parse => "err Parse"
   | .err .invalidRecord => "err InvalidRecord"
+  | .alloc => "panic"
   | .diverge => "diverge"
 
 def handleJacoco (args : List String) : String :=
   match (args.filter (· ≠ "")).mapM parseEvent with
   | some evs => showJacoco (Jacoco.parse evs (enoughFuel evs))
   | none => "bad-op"
+
+def handleJacocoCap : List String → String
+  | c :: args =>
+    match c.toNat?, (args.filter (· ≠ "")).mapM parseEvent with
+    | some cap, some evs =>
+      (match Jacoco.parseCap cap evs (enoughFuel evs) with
+       | .alloc => "alloc"
+       | o => showJacoco o)
+    | _, _ => "bad-op"
+  | [] => "bad-op"
 
 def optHexArg : List String → Option (List Nat)
   | [] => some []
@@ -83,6 +98,7 @@ def handleIsJacoco (args : List String) : String :=
 def stepC10 (line : String) : String :=
   match line.trimAscii.toString.splitOn " " with
   | "jacoco" :: args => handleJacoco args
+  | "jacococap" :: args => handleJacocoCap args
   | "unescape" :: args => handleUnescape args
   | "parsenum" :: args => handleParseNum args
   | "isjacoco" :: args => handleIsJacoco args
